@@ -12,6 +12,9 @@ FlowIRConcrete.  The transition function is the code under check; nothing of it 
   repeated twice more (private-copy clause).  The flavours that by-pass the cache (raw=True, include_default=False)
   are compared afterwards, and finally the description must still answer as before (no leak of scrambled results).
 * Failing observations are grouped by class; the two shortest histories of each class are handed to the runner.
+* Every layer (default/platform global, default/platform stage, component) owns a variable no higher layer shadows and
+  all components interpolate all of them, so that a write is observable on every platform it applies to. A second,
+  shallower stratum adds setters that write ==-equal values of a different type (2 -> 2.0, 1 -> True, 0 -> False).
 """
 import hashlib
 import json
@@ -32,27 +35,35 @@ DEPTH_TYPED = {'quick': 2, 'thorough': 3}
 FULL_ORACLE_DEPTH = 2
 
 RULE = (
-    'BFS over ALL histories (length <= 3 quick, <= 5 thorough) of the per-document alphabet of 24-25 real operations: '
+    'BFS over ALL histories (length <= 3 quick, <= 5 thorough) of the per-document alphabet of 26-27 real operations: '
     'for c in {c0,c1}: setOptionForNode(c,"v"), removeOptionForNode(c,"v"), setOptionForNode(c,"#command.arguments"), '
     'setOptionForNode(c,"#resourceRequest.numberThreads"), removeOptionForNode(c,"#command.arguments"), '
     'update_component(c), delete_component(c), cached query of c on platform default and on platform P '
     '(configurationForNode when it is the active platform); set_global_variable, set_stage_variable (each stage in '
-    'use), set_platform_global_variable(P), set_platform_stage_variable(P), add_component(new c2), '
-    'add_component(c1 again). 3 initial documents, each wrapped by the real FlowIRExperimentConfiguration constructor: '
+    'use), set_platform_global_variable(platform=P | default), set_platform_stage_variable(platform=P | default), '
+    'add_component(new c2), add_component(c1 again). Every layer owns a variable that no higher layer shadows '
+    '(default global n, default stage m, P global pn, P stage pm, component k/v) and every component interpolates all '
+    'of them, so a write to any layer is visible in the resolved configuration on every platform it applies to. '
+    'A second stratum (typed values, length <= 2 quick, <= 3 thorough) extends the alphabet by 9 setters that write a '
+    'value which compares == to the stored one but is a different value (2 -> 2.0, 1 -> True, 0 -> False, 3 -> 3.0) '
+    'for the component, global, stage, platform-global and platform-stage variables. '
+    '3 initial documents, each wrapped by the real FlowIRExperimentConfiguration constructor: '
     '"layered" (global/stage/platform variables, the same name in two stages, active platform default), "override" '
     '(blueprints + component override for P + prefix-colliding names A/AB/A.B, active platform P), "flattened" (a '
     'replicated primitive=False configuration with an unresolvable variable, names x / x.y / xy and a platform P that '
     'does not exist until a mutator creates it); thorough adds the same documents with the other active platform to '
-    'depth 4. States with equal canonical key (active platform + raw() with the component list as a set + cache '
+    'depth 3. States with equal canonical key (active platform + typed raw() with the component list as a set + cache '
     'labels/digests) are merged; the lexicographically smallest history of the first level that reaches a state '
-    'represents it. Every transition is judged by the full oracle: 3 components x 2 platforms x 3 rounds (query, '
-    'scramble result, query, scramble, query) of the cached flavour, then the two uncached flavours (raw=True; '
-    'include_default=False) for c0,c1 on the active platform (results scrambled too), then a check that the scrambled results did '
-    'not leak into the description; a query operation of the history is itself judged against the description it was '
-    'asked on. A history is non-trivial when it contains at least one mutator and at least one cached query; '
-    'distinct = distinct (document, history). Excluded (grey zone): component names with regular-expression meta '
-    'characters other than ".", update_component with a description whose stage/name differ from the id, writes '
-    'through live references obtained with return_copy=False, DoWhile documents, concurrent callers.')
+    'represents it. Every transition is judged: 3 components x 2 platforms of the cached flavour against a '
+    'from-scratch object (values compared with == AND typed: 2, 2.0 and True differ); entries the history left in the '
+    'cache additionally get the private-copy rounds (scramble result, query, scramble, query); after histories of '
+    'length <= 2 the private-copy rounds run for every entry, followed by the two uncached flavours (raw=True; '
+    'include_default=False) for c0,c1 on the active platform and a check that scrambled results did not leak into the '
+    'description; a query operation of the history is itself judged against the description it was asked on. '
+    'A history is non-trivial when it contains at least one mutator and at least one cached query; distinct = '
+    'distinct (document, history). Excluded (grey zone): component names with regular-expression meta characters '
+    'other than ".", update_component with a description whose stage/name differ from the id, writes through live '
+    'references obtained with return_copy=False, DoWhile documents, concurrent callers.')
 
 ASSUMPTIONS = [
     '"computed from scratch from the current description" = FlowIRConcrete(obj.raw(), active platform, documents={}) '
@@ -70,6 +81,10 @@ ASSUMPTIONS = [
     'fresh objects re-use one FlowIRExperimentConfiguration wrapper per process whose _concrete is replaced by '
     'FlowIRConcrete(description produced by the real constructor); the equivalence is verified at start-up',
     'failing observations are grouped by class (sig); two shortest cases per class are reported, the rest counted',
+    'two configurations are equal when they compare == and have the same typed canonical text (an int, the float '
+    'and the bool that compare equal to it are different values: they interpolate and serialise differently)',
+    'the copy-leak rounds on entries filled by the oracle itself and the uncached flavours exercise code that does not '
+    'depend on the history; they are run after every history of length <= 2 only',
 ]
 
 MC_EXPLANATION = (
@@ -121,13 +136,13 @@ def _specs():
     specs = [
         {'name': 'layered', 'doc': d0, 'active': 'default', 'primitive': True,
          'comps': [[0, 'A'], [1, 'A']],
-         'add': {'name': 'AA', 'stage': 0, 'command': {'executable': 'echo', 'arguments': 'add %(g)s %(s)s'}}},
+         'add': {'name': 'AA', 'stage': 0, 'command': {'executable': 'echo', 'arguments': 'add %(g)s %(s)s %(n)s %(m)s'}}},
         {'name': 'override', 'doc': d1, 'active': 'P', 'primitive': True,
          'comps': [[0, 'A'], [0, 'AB']],
-         'add': {'name': 'A.B', 'stage': 0, 'command': {'executable': 'echo', 'arguments': 'add %(g)s %(s)s'}}},
-        {'name': 'flattened', 'doc': d2, 'active': 'default', 'primitive': False,
+         'add': {'name': 'A.B', 'stage': 0, 'command': {'executable': 'echo', 'arguments': 'add %(g)s %(s)s %(n)s %(m)s'}}},
+        {'name': 'flattened', 'doc': d2, 'active': 'default', 'primitive': False, 'gvar': 'g',
          'comps': [[0, 'x'], [0, 'x.y']],
-         'add': {'name': 'xy', 'stage': 1, 'command': {'executable': 'echo', 'arguments': 'add %(g)s'}}},
+         'add': {'name': 'xy', 'stage': 1, 'command': {'executable': 'echo', 'arguments': 'add %(g)s %(n)s'}}},
     ]
     out = {}
     for s in specs:
@@ -206,10 +221,10 @@ def _component_desc(spec, i):
         return copy.deepcopy(spec['add'])
     st, name = spec['comps'][i]
     if i == 0:
-        return {'name': name, 'stage': st, 'command': {'executable': 'echo', 'arguments': 'upd0 %(g)s %(v)s'},
+        return {'name': name, 'stage': st, 'command': {'executable': 'echo', 'arguments': 'upd0 %(g)s %(v)s %(n)s %(m)s'},
                 'variables': {'v': 'uv0'}, 'resourceRequest': {'numberThreads': 5}}
     # deliberately without a 'variables' section
-    return {'name': name, 'stage': st, 'command': {'executable': 'echo', 'arguments': 'upd1 %(s)s'}}
+    return {'name': name, 'stage': st, 'command': {'executable': 'echo', 'arguments': 'upd1 %(s)s %(n)s %(m)s'}}
 
 
 def apply_op(spec, conf, op):
@@ -226,33 +241,37 @@ def apply_op(spec, conf, op):
         elif kind == 'delvar':
             conf.removeOptionForNode(_ref(spec['comps'][op[1]]), 'v')
         elif kind == 'setarg':
-            conf.setOptionForNode(_ref(spec['comps'][op[1]]), '#command.arguments', 'na%d %%(g)s %%(s)s %%(v)s' % op[1])
+            conf.setOptionForNode(_ref(spec['comps'][op[1]]), '#command.arguments',
+                                  'na%d %%(g)s %%(s)s %%(v)s %%(n)s %%(m)s' % op[1])
         elif kind == 'setthr':
             conf.setOptionForNode(_ref(spec['comps'][op[1]]), '#resourceRequest.numberThreads', 7 + op[1])
         elif kind == 'rmarg':
             conf.removeOptionForNode(_ref(spec['comps'][op[1]]), '#command.arguments')
         elif kind == 'setglobal':
+            # n is defined by the default platform only (document: n = 2), so the write is visible on every platform;
+            # the flattened document writes the variable its component x cannot resolve until then
             if eq:
-                conc.set_global_variable('n', 2.0)                                      # document: n = 2
+                conc.set_global_variable('n', 2.0)
             else:
-                conc.set_global_variable('g', 'ng')
+                conc.set_global_variable(spec.get('gvar', 'n'), 'ng')
         elif kind == 'setstage':
+            # m is defined by the default platform's stages only (document: m = 0)
             if eq:
-                conc.set_stage_variable(op[1], 'm', False)                              # document: m = 0
+                conc.set_stage_variable(op[1], 'm', False)
             else:
-                conc.set_stage_variable(op[1], 's', 'ns%d' % op[1])
+                conc.set_stage_variable(op[1], 'm', 'ns%d' % op[1])
         elif kind == 'setpglobal':
-            if eq:
-                # document: default pn = 5, P pn = 1
-                conc.set_platform_global_variable('pn', 5.0 if op[1] == 'default' else True, op[1])
+            # default: the unshadowed n; P: pn, which P defines on top of the default platform (document: P pn = 1)
+            if op[1] == 'default':
+                conc.set_platform_global_variable('n', 2.0 if eq else 'ndg', op[1])
             else:
-                conc.set_platform_global_variable('g', 'npg' if op[1] == 'P' else 'ndg', op[1])
+                conc.set_platform_global_variable('pn', True if eq else 'npg', op[1])
         elif kind == 'setpstage':
-            if eq:
-                # document: default pm = 6, P pm = 3
-                conc.set_platform_stage_variable(op[1], 'pm', 6.0 if op[2] == 'default' else 3.0, op[2])
+            # default: the unshadowed m; P: pm (document: P pm = 3)
+            if op[2] == 'default':
+                conc.set_platform_stage_variable(op[1], 'm', False if eq else 'nds', op[2])
             else:
-                conc.set_platform_stage_variable(op[1], 's', 'nps' if op[2] == 'P' else 'nds', op[2])
+                conc.set_platform_stage_variable(op[1], 'pm', 3.0 if eq else 'nps', op[2])
         elif kind == 'add':
             conc.add_component(_component_desc(spec, op[1]))
         elif kind == 'update':
